@@ -46,6 +46,9 @@ class Findings:
             cands = [v for pc, v in slot.items() if not (set(pc) & broken)]
             if cands:
                 out.append(violation(k, min(cands)[1], unit=k.split(":")[-1]))
+        if any(v["key"].endswith("Evaluator.fitness_value") for v in out):
+            # the disagreement is already explained by a wrong value against the reference
+            out = [v for v in out if not v["key"].endswith(".differs_from_sequential")]
         return out
 
 
@@ -256,7 +259,7 @@ def run(tier: str, seed: int) -> dict:
         vias = ("evaluate", "evaluate_async", "tracker", "Population twice")
         # sequential: every size 1..4 x every pre-evaluation mask x duplicate position x problem x way of presenting
         plan = []
-        for n in range(1, 5):
+        for n in range(1, 5 if quick else 6):
             for mask in itertools.product((False, True), repeat=n):
                 for dup in [None] + list(range(n)):
                     plan.append((n, mask, dup))
@@ -323,10 +326,10 @@ def run(tier: str, seed: int) -> dict:
             pass
     rule = (
         "problem.evaluate on 7 problem forms (single max/min; multi with list and bool `minimize`, 1-3 objectives): components == fitness function, aggregate == v / -v / sum with minimised "
-        "components negated, exactly one invocation.  SequentialEvaluator: all populations of 1..4 individuals x every subset already evaluated x one individual presented twice (or none) x two "
+        "components negated, exactly one invocation.  SequentialEvaluator: all populations of 1..4 (thorough 1..5) individuals x every subset already evaluated x one individual presented twice (or none) x two "
         "problems sharing the individuals x presented through evaluate / evaluate_async / tracker.evaluate / Population built twice: recorded fitness == fitness function of the phenotype, "
         "at most one invocation per (individual, problem) in an append-only file log, evaluator counter == number of invocations.  ParallelEvaluator (real pathos pools): a seeded subset "
-        "(60 populations of <= 3 quick / all 250 thorough) with the same checks and parallel == sequential fitness on equal populations; GP runs (default step and two compositions re-presenting individuals) "
+        "(60 populations of <= 3 individuals quick / all 320 thorough) with the same checks and parallel == sequential fitness on equal populations; GP runs (default step and two compositions re-presenting individuals) "
         "with both evaluators: counter == invocations, each phenotype evaluated once"
     )
     return result(evaluations, nontrivial, rule, samples, find.violations(), exhaustive=False, parallel_evaluator_calls=par_calls, fitness_invocations_logged=total_invocations, parallel_vs_sequential_mismatches=mismatches)
